@@ -208,26 +208,26 @@ def extract_variant(config, rel, files, repo=None):
         if cmdt is None:
             return None, 'unit %s not in configuration %s' % (rel, config)
         e = {'file': os.path.join(repo, rel), 'directory': fdir, 'command': cmdt.replace('@BUILDDIR@', fdir)}
+        # mirror tree: a symlink farm of the repo's sources with the edited
+        # files replaced by real copies, so that every quoted include (also
+        # from unedited headers) resolves inside the mirror
         mirror = os.path.join(builddir, 'variant')
         files = dict(files)
-        if rel not in files:
-            files[rel] = open(os.path.join(repo, rel)).read()
-        extra_inc = []
+        for d in SRC_DIRS:
+            for root, dirs, fs in os.walk(os.path.join(repo, d)):
+                relroot = os.path.relpath(root, repo)
+                os.makedirs(os.path.join(mirror, relroot), exist_ok=True)
+                for fn in fs:
+                    r = os.path.join(relroot, fn)
+                    if r not in files:
+                        os.symlink(os.path.join(root, fn), os.path.join(mirror, r))
         for r, text in files.items():
             dst = os.path.join(mirror, r)
             os.makedirs(os.path.dirname(dst), exist_ok=True)
             with open(dst, 'w') as fh:
                 fh.write(text)
-            extra_inc.append(os.path.dirname(dst))
         sp = os.path.join(mirror, rel)
-        srcdir = os.path.dirname(e['file'])
-        incs = ' '.join('-I' + d for d in dict.fromkeys(extra_inc)) + ' -I' + srcdir
-        cmd = e['command'].replace(' -c ' + e['file'], ' ' + incs + ' -c ' + sp)
-        # mirror include dirs must win over the repo's -I dirs
-        toks = cmd.split()
-        first_i = next((k for k, t in enumerate(toks) if t.startswith('-I')), 1)
-        toks = toks[:first_i] + ['-I' + d for d in dict.fromkeys(extra_inc)] + toks[first_i:]
-        cmd = ' '.join(toks)
+        cmd = e['command'].replace(repo + '/', mirror + '/').replace('-I' + repo + ' ', '-I' + mirror + ' ')
         with open(os.path.join(builddir, 'compile_commands.json'), 'w') as fh:
             json.dump([{'directory': e['directory'], 'file': sp, 'command': cmd}], fh)
         outp = os.path.join(builddir, 'variant.json')
